@@ -87,6 +87,11 @@ def variants(rng, v):
         out.append(v + '~')
     out.append(v + 'a')
     out.append(v + '.0')
+    # the same spelling with the case of one letter swapped (upper-case letters sort before lower-case ones)
+    li = [i for i, c in enumerate(v) if c.isalpha() and c.isascii()]
+    if li:
+        i = rng.choice(li)
+        out.append(v[:i] + v[i].swapcase() + v[i + 1:])
     return [x for x in out if x]
 
 
